@@ -6,7 +6,9 @@
 package imapserver
 
 import (
+	"bytes"
 	"crypto/tls"
+	"io"
 	"net"
 
 	"github.com/emersion/go-imap/v2"
@@ -316,6 +318,12 @@ func mayAuth(c *Conn) bool {
 //@   ensures c.state == old(c.state)
 
 //@ func (c *Conn) handleStartTLS(tag string, dec *imapwire.Decoder) (err error)
+//@   props C17:post,pre@call,callsite
+//@   callsite tls.Server requires __called("writeStatusResp") && !__failed("writeStatusResp") && __called("CopyN") && c.canStartTLS()
+//@   callsite io.MultiReader(readers []io.Reader) requires len(readers) == 2 && isBytesBuffer(readers[0])
+//@   callsite Reader.Reset requires __called("Server")
+//@   callsite Writer.Reset requires __called("Server")
+//@   ensures[C17] err == nil ==> isTLS(c.conn) && __called("Reader.Reset") && __called("Writer.Reset")
 //@   props C04:post,pre@call
 //@   requires tag != ""
 //@   ensures err == nil ==> __ghost("tagged") == old(__ghost("tagged"))+1
@@ -441,3 +449,22 @@ func tagHandlerFailed() bool {
 //@   props C04:post,pre@call,callsite
 //@   callsite Conn.writeContReq requires authed(c)
 //@   ensures c.state == old(c.state) && __ghost("tagged") == old(__ghost("tagged"))
+
+// ---------------------------------------------------------------------------
+// C17: the STARTTLS switch. Ordering is stated as call-site preconditions over
+// the ghost call records: the TLS layer is created only after the tagged OK
+// was written successfully and the buffered plaintext was drained into a
+// buffer that the TLS layer reads first; the buffered reader/writer are reset
+// onto the TLS connection only after it exists; on success the connection is a
+// TLS connection.
+
+//@ pure
+func isBytesBuffer(r io.Reader) bool {
+	_, ok := r.(*bytes.Buffer)
+	return ok
+}
+
+//@ func (c *Conn) canStartTLS() (result bool)
+//@   props C17:post,pre@call C05:post,pre@call
+//@   ensures result == (c.server.options.TLSConfig != nil && c.state == imap.ConnStateNotAuthenticated && !isTLS(c.conn))
+//@   ensures c.state == old(c.state)
